@@ -27,6 +27,7 @@ import (
 
 	proxyv1alpha1 "github.com/kubewharf/kubegateway/pkg/apis/proxy/v1alpha1"
 	"github.com/kubewharf/kubegateway/pkg/clusters"
+	"github.com/kubewharf/kubegateway/pkg/clusters/features"
 
 	"verifh/e2e"
 	"verifh/ev"
@@ -131,6 +132,19 @@ type world struct {
 func newWorld() *world {
 	w := &world{r: e2e.New(), up: e2e.NewUpstream("u1")}
 	w.r.AddCluster(e2e.ClusterObject("c1", w.up), nil)
+	return w
+}
+
+// newObservedWorld: everything that watches a request go by is switched on - the proxy's access log and tracing
+// options, the cluster's Tracing feature gate, logging for the cluster and its policy. None of it may touch what is
+// forwarded.
+func newObservedWorld() *world {
+	w := &world{r: e2e.NewWithOptions(clusters.NewManager(), true, true), up: e2e.NewUpstream("u1")}
+	o := e2e.ClusterObject("c1", w.up)
+	o.Annotations = map[string]string{"proxy.kubegateway.io/feature-gates": "Tracing=true"}
+	o.Spec.Logging.Mode = proxyv1alpha1.LogOn
+	o.Spec.DispatchPolicies[0].LogMode = proxyv1alpha1.LogOn
+	w.r.AddCluster(o, nil)
 	return w
 }
 
@@ -609,6 +623,38 @@ func main() {
 			}
 		}})
 	}
+	// the same dimensions and the header x body product with every observer switched on (access log, tracing, logging)
+	tasks = append(tasks, ev.Task{Name: "observed-request-dimensions", Run: func() {
+		w := newObservedWorld()
+		defer w.close()
+		if ci, ok := w.r.Manager.Get("c1"); !ok || !ci.FeatureEnabled(features.Tracing) {
+			c.EngineError("the observed world's cluster does not have the Tracing gate on: the tracing path would not be exercised")
+			return
+		}
+		for _, m := range methods {
+			for _, h := range reqHeaders {
+				for _, b := range bodies {
+					requestCase(c, w, m, paths[2], queries[2], h, bodyFor(m, b))
+				}
+			}
+		}
+		for _, p := range paths {
+			for _, q := range queries {
+				requestCase(c, w, "POST", p, q, reqHeaders[1], bodies[1])
+			}
+		}
+	}})
+	tasks = append(tasks, ev.Task{Name: "observed-response-product", Run: func() {
+		w := newObservedWorld()
+		defer w.close()
+		for _, st := range statuses {
+			for _, h := range respHeaders {
+				for _, b := range respBodies {
+					responseCase(c, w, st, h, b, "GET")
+				}
+			}
+		}
+	}})
 	// response side
 	tasks = append(tasks, ev.Task{Name: "response-dimensions", Run: func() {
 		w := newWorld()
